@@ -182,7 +182,11 @@ fn switches<C: ScriptContext>(node: &Node, ctx: Ctx, text: &str, rep: &mut Repor
         expect(&ms, &p, None, &format!("{}=actual+1", name), text)
     };
     lim(&|p, v| p.max_script_size = v, size, "max_script_size", "MaxScriptSizeExceeded")?;
-    lim(&|p, v| p.max_recursive_depth = v, ms.ext.tree_height, "max_recursive_depth", "MaxRecursiveDepthExceeded")?;
+    // the depth figure itself: the mirror's height (leaf = 1) is the library's tree_height + 1
+    if ms.ext.tree_height + 1 != node.height() {
+        return fail(&format!("tree-height/{}", node.frag_name()), format!("ext.tree_height = {} for `{}` whose expression tree has {} levels", ms.ext.tree_height, text, node.height()));
+    }
+    lim(&|p, v| p.max_recursive_depth = v, node.height() - 1, "max_recursive_depth", "MaxRecursiveDepthExceeded")?;
     if let Some(sd) = ms.ext.sat_data {
         lim(&|p, v| p.max_witness_items = v, sd.max_witness_stack_count + 1, "max_witness_items", "MaxWitnessItemsExceeded")?;
         lim(&|p, v| p.max_opcode_count = v, ms.ext.static_ops + sd.max_exec_op_count, "max_opcode_count", "MaxOpCountExceeded")?;
@@ -227,6 +231,18 @@ fn violate(src: &mut Src, ctx: Ctx, node: Node) -> (Node, &'static str) {
             // wrong multisig flavour
             let ks = vec![keys::key_compressed(1), keys::key_compressed(2)];
             let m = if ctx == Ctx::Tap { Node::Multi(1, ks) } else { Node::MultiA(1, ks) };
+            (Node::AndV(b(Node::Verify(b(m))), b(node)), "wrong-multi-flavour")
+        }
+        5 => {
+            // a lock value outside 1 ..= 2^31-1
+            let v = *src.pick(&[0u32, 0, 0x8000_0000, 0x8000_0001, 0xffff_ffff]);
+            let l = if src.bool() { Node::Older(v) } else { Node::After(v) };
+            (Node::AndV(b(Node::Verify(b(l))), b(node)), "lock-out-of-range")
+        }
+        6 => {
+            // wrong sorted-multisig flavour
+            let ks = if ctx == Ctx::Tap { vec![keys::key_xonly(1), keys::key_xonly(2)] } else { vec![keys::key_compressed(1), keys::key_compressed(2)] };
+            let m = if ctx == Ctx::Tap { Node::SortedMulti(1, ks) } else { Node::SortedMultiA(1, ks) };
             (Node::AndV(b(Node::Verify(b(m))), b(node)), "wrong-multi-flavour")
         }
         3 => (Node::OrI(b(node.clone()), b(Node::Check(b(Node::PkK(keys::key_compressed(9)))))), "or_i"),
@@ -280,6 +296,14 @@ fn accept_ms<C: ScriptContext>(node: &Node, ctx: Ctx, text: &str, rep: &mut Repo
         }
         if analysis::has(node, &|x| matches!(x, Node::RawPkH(_))) {
             return fail("from_str_insane-accepts/raw-pkh", format!("from_str_insane accepts raw pkh: {}", text));
+        }
+    }
+    // the AST entry point: every node through Miniscript::from_ast
+    if crate::glue::ms_from_node_ast::<C>(node).is_ok() {
+        rep.class("accepted:from_ast");
+        // (from_ast builds expressions of any base type: no top-level rule)
+        if let Some(d) = &analysis::context_violation(node, ctx, false) {
+            return fail(&format!("from_ast-accepts/{}", d.split(' ').next().unwrap_or("?")), format!("Miniscript::<_, {:?}>::from_ast (bottom-up) accepts `{}` which violates: {}", ctx, text, d));
         }
     }
     if Miniscript::<DK, C>::from_str_with_validation_params(text, &C::CONSENSUS).is_ok() {
@@ -344,7 +368,7 @@ fn rand_params(src: &mut Src) -> ValidationParams {
 impl Check for C12 {
     fn id(&self) -> &'static str { "C12" }
     fn rule(&self) -> String {
-        "lane `accept`: a typed random miniscript with at most one injected context violation (non-B top level, key kind illegal in the context, wrong multisig flavour, or_i / d: in pre-segwit contexts) offered as text to Miniscript::{from_str, from_str_insane, from_str_with_validation_params(Ctx::CONSENSUS)}, as script to decode / decode_consensus, wrapped into wsh / sh(wsh) / sh / tr descriptors for Descriptor::from_str, and through Descriptor::new_{wsh,sh,sh_wsh,tr} constructors: whatever is accepted must satisfy the mirror's context rules (specification typing, top-level B, key kinds, multisig flavour, conditional fragments, script size, depth) and, for the default parsers, the default sanity predicates; what Descriptor::from_str accepts the miniscript parser with the context's consensus parameters must accept too. lane `switch`: miniscripts parsed with MAX parameters; for each boolean switch, validate() with only that switch restricted must fail with that switch's error iff the mirror predicate finds the defect (key multiset, path-set time-lock analysis, specification type s/m/B, fragment census, key kinds, exhaustive witness search for `unsatisfiable`), and each numeric limit must accept at the script's own figure and at +1 and reject at -1. lane `lattice`: random parameter sets p,q,r: intersect idempotent / commutative / associative / lower bound, entails reflexive / transitive, p.entails(q) => every script p accepts q accepts; Ctx::SANE entails Ctx::CONSENSUS. Non-trivial = accepted inputs with >= 2 nodes, rejected one-violation inputs, (script, switch) pairs where the defect is present.".into()
+        "lane `accept`: a typed random miniscript with at most one injected context violation (non-B top level, key kind illegal in the context, wrong (sorted)multisig flavour, or_i / d: in pre-segwit contexts, a lock value of 0 or >= 2^31) offered as text to Miniscript::{from_str, from_str_insane, from_str_with_validation_params(Ctx::CONSENSUS)}, node by node to Miniscript::from_ast, as script to decode / decode_consensus, wrapped into wsh / sh(wsh) / sh / tr descriptors for Descriptor::from_str, and through Descriptor::new_{wsh,sh,sh_wsh,tr} constructors: whatever is accepted must satisfy the mirror's context rules (specification typing, top-level B, key kinds, multisig flavour, conditional fragments, script size, depth) and, for the default parsers, the default sanity predicates; what Descriptor::from_str accepts the miniscript parser with the context's consensus parameters must accept too. lane `switch`: miniscripts parsed with MAX parameters; for each boolean switch, validate() with only that switch restricted must fail with that switch's error iff the mirror predicate finds the defect (key multiset, path-set time-lock analysis, specification type s/m/B, fragment census, key kinds, exhaustive witness search for `unsatisfiable`), and each numeric limit must accept at the script's own figure and at +1 and reject at -1. lane `lattice`: random parameter sets p,q,r: intersect idempotent / commutative / associative / lower bound, entails reflexive / transitive, p.entails(q) => every script p accepts q accepts; Ctx::SANE entails Ctx::CONSENSUS. Non-trivial = accepted inputs with >= 2 nodes, rejected one-violation inputs, (script, switch) pairs where the defect is present.".into()
     }
     fn lanes(&self, tier: Tier) -> Vec<(&'static str, usize, usize)> {
         match tier {
